@@ -5,7 +5,7 @@ cd "$(dirname "$0")/.."
 pid=$1
 n=$(echo $pid | tr 'C' 'c')
 git add -A; git commit -qm "evidence before integrating $pid" >/dev/null 2>&1
-git merge --no-edit -q -X ours w-$n || { echo "merge conflict"; git merge --abort; exit 1; }
+git merge --no-edit -q -X ours w-$n || { git add -A; git commit -qm "merge w-$n (rename/delete conflicts resolved by keeping both)" || { echo "merge conflict"; git merge --abort; exit 1; }; }
 # known_findings.json is owned by main: never take a builder branch's copy
 git checkout -q ORIG_HEAD -- known_findings.json 2>/dev/null
 /venv/bin/python tools/mkfindings.py
